@@ -42,7 +42,7 @@ def wl_shapes(ctx, config):
     for a, b in ctx.mine(pairs * reps):
         if ctx.quick and a * b > 64 * 16 and rng.random() < 0.5: continue     # the 64x32 / 64x64 shapes cost ~1 s each in the model
         G = allgens[:a + b]; gser = bppp.gens_ser(G)
-        kind = rng.choice(("random", "random", "pool", "small", "zero"))
+        kind = rng.choice(("random", "random", "pool", "small", "zero", "zero"))
         nv = vec(rng, a, kind); lv = vec(rng, b, kind if kind != "zero" or rng.random() < 0.5 else "random"); cv = vec(rng, b, "pool" if kind == "pool" else "random")
         rho = rng.choice((1, 2, n - 1, rng.randrange(1, n))); prefix = pools.rbytes(rng, rng.choice((0, 1, 32, 64, 65)))
         pscr = rng.choice((0, 256, 4096, BIG))
@@ -79,6 +79,14 @@ def mutate(ctx, config, rng, prefix, rho, G, gser, a, cv, C33, proof):
         if rng.random() < 0.6:
             t = bytearray(proof); t[65 * i] = rng.choice((4, 5, 8, 128, 255)) | (t[65 * i] & 3); V(bytes(t), "mut:sign_byte_gt_3")
             t = bytearray(proof); t[65 * i] ^= rng.choice((1, 2, 3)); V(bytes(t), "mut:sign_bit_flipped")
+            # x coordinates that only LOOK like an existing encoding after reduction mod p: an infinite point (32 zero bytes, e.g. from a
+            # zero-structured witness) re-encoded as the field prime p, and any x re-encoded as x + p when that fits
+            for idx in (0, 1):
+                xb = proof[65 * i + 1 + 32 * idx:65 * i + 33 + 32 * idx]; xv = I(xb)
+                if xv == 0:
+                    t = bytearray(proof); t[65 * i + 1 + 32 * idx:65 * i + 33 + 32 * idx] = b32(p); V(bytes(t), "mut:infinity_encoded_as_p")
+                elif xv + p < 2**256:
+                    t = bytearray(proof); t[65 * i + 1 + 32 * idx:65 * i + 33 + 32 * idx] = b32(xv + p); V(bytes(t), "mut:x_plus_p")
             # a point replaced by infinity (valid encoding) and by infinity with its sign bit set (invalid)
             for idx in (0, 1):
                 t = bytearray(proof); t[65 * i + 1 + 32 * idx:65 * i + 33 + 32 * idx] = bytes(32); t[65 * i] &= ~(2 - idx) & 0xFF; V(bytes(t), "mut:point_to_infinity")
